@@ -1,9 +1,8 @@
 #!/bin/bash
-# run C02 quick for several seeds, collect unclassified violations
+# harvest of C02 violation keys over many seeds (evidence and replays go to a scratch directory)
 cd "$(dirname "$0")"
-./setup.sh >/dev/null 2>&1
-for s in 10 11 12 13 14 15 16 17; do
-  VERIF_SEED=$s VERIF_WORKERS=6 ./check C02 --tier quick > harvest_$s.log 2>&1
-  grep "key=None\|^\[C02\] tier" harvest_$s.log | cut -c1-400
-  mkdir -p harvest_replays; cp replays/C02-quick-s$s-*.json harvest_replays/ 2>/dev/null
+mkdir -p /var/tmp/c02harv
+for s in "$@"; do
+  VERIF_SEED=$s VERIF_WORKERS=${VERIF_WORKERS:-14} VERIF_OUT=/var/tmp/c02harv ./check C02 --tier quick > /var/tmp/c02h.$s.log 2>&1
+  echo "seed $s exit $? $(grep -c '^  violation' /var/tmp/c02h.$s.log) unlisted"
 done
